@@ -320,7 +320,7 @@ def run(ctx):
     vlib.go_build("c14")
     mc_cfgs = [MC_DEVIATION] + (MC_QUICK if q else MC_THOROUGH)
     pool = cf.ThreadPoolExecutor(max_workers=1)
-    mc_future = pool.submit(model_check, ctx, mc_cfgs, 3 if q else 4, 3)
+    mc_future = pool.submit(model_check, ctx, mc_cfgs, 2 if q else 4, 4 if q else 3)
 
     # ---- S -> C
     T = _Timer()
